@@ -48,7 +48,7 @@ func init() {
 		Level:  "fault_enumeration",
 		Rule: "E3 fault enumeration: (truncation) every frame of a 40-frame alphabet (4 message kinds × body lengths 0..200) × EVERY cut point k < len(frame) × reader chunkings {whole, 1 byte at a time, and every chunking with ≤1 (thorough ≤2) extra deviations: short read at any byte, data together with io.EOF, one empty read}, the same cuts through 11 standard-library reader types (bytes.Reader, bytes.Buffer, strings.Reader, bufio.Reader of 16/32/64/4096 bytes, io.LimitedReader, io.SectionReader, iotest.OneByteReader, iotest.DataErrReader - code may special-case a reader's dynamic type), and four frames with bodies of 1..3 MiB × cut points within ±1 of m·2^p (p = 9..22, m = 1..3, measured from the frame and from the body start) × {whole, 4 KiB, 64 KiB chunks}: never success, n = k, cause io.EOF for k=0, io.ErrUnexpectedEOF otherwise, either one for k=32; " +
 			"(corrupt header, in a memory-limited worker process) header-size field × body-size field alphabets (0, len±1, 2^31, 2^32, 2^40, 2^47, 2^48, 2^62, 2^63-1, 2^63, 2^63+1, 2^64-1 …) × version bytes {ASCII, 0xff, NUL} × {0, 5, all} body bytes present: header size ≠ 32 ⇒ ErrInvalidHeaderSize after exactly 32 bytes; otherwise success iff the declared body is completely present; never a panic, never a dead process; ReadHeader on every prefix 0..40 of arbitrary bytes returns normally; " +
-			"(writer faults) every frame × EVERY byte budget k ≤ len(frame) × {partial write with error, refusal with count 0, full count TOGETHER with the error on the call that ends exactly at the budget (one-shot; later bytes are recorded)}: (corrupt headers also through three readers that are io.Seekers - iohelper.AtToReader and an over-long io.SectionReader, which report more remaining bytes than they can deliver, and bytes.Reader) Marshal returns that error and the count of accepted bytes, which are exactly frame[:count] - also for 18 longer frames (bodies of 4000..70000 bytes and 1 MiB+1) with budgets at both ends and around 512, 4096, 8192, 65536, 2^20 measured from the start, from the body start and from the end; (read errors) a non-EOF error injected at every offset, alone or together with the last bytes, under whole and 1-byte chunkings and after every single chunking deviation (short read at any byte, one empty read): no success unless the frame was delivered completely, n = bytes delivered. A case is one (frame, fault point, mode); non-trivial when the fault point is inside the frame (0 < k < len).",
+			"(writer faults) every frame × EVERY byte budget k ≤ len(frame) × {partial write with error, refusal with count 0, full count TOGETHER with the error on the call that ends exactly at the budget (one-shot; later bytes are recorded)}: (corrupt headers also through three readers that are io.Seekers - iohelper.AtToReader and an over-long io.SectionReader, which report more remaining bytes than they can deliver, and bytes.Reader) Marshal returns that error and the count of accepted bytes, which are exactly frame[:count] - also for 18 longer frames (bodies of 4000..70000 bytes and 1 MiB+1) with budgets at both ends and around 512, 4096, 8192, 65536, 2^20 measured from the start, from the body start and from the end; a payload-length sweep (EVERY length 0..600 × 2 kinds × every cut point and every writer budget); (read errors) a non-EOF error injected at every offset, alone or together with the last bytes, under whole and 1-byte chunkings and after every single chunking deviation (short read at any byte, one empty read): no success unless the frame was delivered completely, n = bytes delivered. A case is one (frame, fault point, mode); non-trivial when the fault point is inside the frame (0 < k < len).",
 		Assumptions: []string{
 			"for a body-size field ≥ 2^63 (no valid frame can have such a body) only 'returns normally and does not succeed' is required; for smaller declared sizes that exceed the stream the truncation clause applies (n = bytes available)",
 			"the worker process runs under `ulimit -v`; a worker that dies is reported for the case it announced before executing it",
@@ -725,6 +725,38 @@ func c07Run(c *mc.Ctx) {
 			}
 			c.Count(1, 1)
 			c.Add("writer_fault_cases_long_frames", 1)
+		})
+	}
+	// payload-length sweep: EVERY payload length 0..600 × 2 message kinds × EVERY cut point (whole-chunk
+	// reader) and EVERY writer budget (partial write with an error): an implementation may treat frames
+	// below or above some length differently
+	{
+		type sj struct {
+			f c06Frame
+		}
+		var sjs []sj
+		for l := 0; l <= 600; l++ {
+			sjs = append(sjs, sj{c06Frame{Kind: "legacy", Payload: l}}, sj{c06Frame{Kind: "pb", Payload: l}})
+		}
+		for _, j := range sjs {
+			c.Expect(int64(2*len(c06Wire(j.f)) + 1))
+		}
+		c.Par(len(sjs), func(i int) {
+			f := sjs[i].f
+			fc := f
+			n := len(c06Wire(f))
+			for k := 0; k < n; k++ {
+				if g, w := c07Trunc(f, k, nil, 1<<20); g != w {
+					c.Fail(9<<48|int64(i)<<24|int64(k)<<1, "truncation", "truncation/length-sweep", c07Case{Frame: &fc, Cut: k, Uniform: 1 << 20}, g, w)
+				}
+			}
+			for k := 0; k <= n; k++ {
+				if g, w := c07WriterFault(f, k, "partial"); g != w {
+					c.Fail(9<<48|int64(i)<<24|int64(k)<<1|1, "writer", "writer/length-sweep", c07Case{Frame: &fc, Budget: k, Mode: "partial"}, g, w)
+				}
+			}
+			c.Count(int64(2*n+1), int64(2*n+1))
+			c.Add("payload_length_sweep_cases", int64(2*n+1))
 		})
 	}
 	// ReadHeader on arbitrary prefixes
